@@ -90,4 +90,200 @@ theorem beValue_inj : ∀ (a b : Bytes), a.length = b.length → beValue a = beV
       have : beValue s = beValue t := by omega
       rw [UInt8.toNat_inj.mp hxy, ih t hl this]
 
+/-! ## 2. two's complement values -/
+
+/-- signed value of one octet -/
+def sb (a : UInt8) : Int := if a.toNat ≥ 128 then (a.toNat : Int) - 256 else a.toNat
+
+theorem sb_bounds (a : UInt8) : -128 ≤ sb a ∧ sb a ≤ 127 := by
+  have := UInt8.toNat_lt a
+  unfold sb; split <;> omega
+
+theorem beValue_ltI (s : Bytes) : (beValue s : Int) < (256 : Int) ^ s.length := by
+  have := Int.ofNat_lt.mpr (beValue_lt s)
+  rw [Int.natCast_pow] at this
+  exact this
+
+theorem beValue_consI (a : UInt8) (s : Bytes) :
+    (beValue (a :: s) : Int) = (a.toNat : Int) * (256 : Int) ^ s.length + (beValue s : Int) := by
+  rw [beValue_cons, Int.natCast_add, Int.natCast_mul, Int.natCast_pow]; rfl
+
+theorem tcValue_cons (a : UInt8) (s : Bytes) :
+    tcValue (a :: s) = sb a * (256 : Int) ^ s.length + (beValue s : Int) := by
+  unfold tcValue sb
+  rw [beValue_consI]
+  simp only [List.length_cons]
+  split <;> grind
+
+theorem mul_bounds (x lo hi P : Int) (hP : 0 ≤ P) (h1 : lo ≤ x) (h2 : x ≤ hi) :
+    lo * P ≤ x * P ∧ x * P ≤ hi * P :=
+  ⟨Int.mul_le_mul_of_nonneg_right h1 hP, Int.mul_le_mul_of_nonneg_right h2 hP⟩
+
+theorem powI_pos (n : Nat) : (0 : Int) < (256 : Int) ^ n := Int.pow_pos (by decide)
+
+theorem powI_succ (n : Nat) : (256 : Int) ^ (n + 1) = 256 * (256 : Int) ^ n := by
+  rw [Int.pow_succ, Int.mul_comm]
+
+theorem powI_mono {i j : Nat} (h : i ≤ j) : (256 : Int) ^ i ≤ (256 : Int) ^ j := by
+  have := Int.ofNat_le.mpr (Nat.pow_le_pow_right (n := 256) (by decide) h)
+  rw [Int.natCast_pow, Int.natCast_pow] at this
+  exact this
+
+/-- `2^(8(n+1)-1) = 128·256^n` -/
+theorem half_succ (n : Nat) : (2 : Int) ^ (8 * (n + 1) - 1) = 128 * (256 : Int) ^ n := by
+  have e : 8 * (n + 1) - 1 = 8 * n + 7 := by omega
+  rw [e, Int.pow_add, Int.pow_mul, Int.mul_comm]; rfl
+theorem full (n : Nat) : (2 : Int) ^ (8 * n) = (256 : Int) ^ n := by
+  rw [Int.pow_mul]; rfl
+
+theorem beValue_nonnegI (s : Bytes) : (0 : Int) ≤ (beValue s : Int) := Int.natCast_nonneg _
+
+/-- an `n+1`-octet two's complement string denotes a number of the `n+1`-octet range -/
+theorem tcValue_range_cons (a : UInt8) (t : Bytes) :
+    -(128 * (256 : Int) ^ t.length) ≤ tcValue (a :: t) ∧ tcValue (a :: t) < 128 * (256 : Int) ^ t.length := by
+  rw [tcValue_cons]
+  have hP := powI_pos t.length
+  have hB := beValue_ltI t
+  have hB0 := beValue_nonnegI t
+  obtain ⟨h1, h2⟩ := sb_bounds a
+  obtain ⟨h3, h4⟩ := mul_bounds (sb a) (-128) 127 _ (Int.le_of_lt hP) h1 h2
+  omega
+
+theorem isMinimalTC_cons2 (a b : UInt8) (t : Bytes) :
+    isMinimalTC (a :: b :: t) = true ↔
+      ¬ (a.toNat = 0 ∧ b.toNat < 128) ∧ ¬ (a.toNat = 255 ∧ 128 ≤ b.toNat) := by
+  simp [isMinimalTC, byte_beq_iff]
+  omega
+
+/-- a minimal form of `n+2` octets denotes a number outside the `n+1`-octet range -/
+theorem tcValue_minimal_big (a b : UInt8) (t : Bytes) (hm : isMinimalTC (a :: b :: t) = true) :
+    128 * (256 : Int) ^ t.length ≤ tcValue (a :: b :: t) ∨
+      tcValue (a :: b :: t) < -(128 * (256 : Int) ^ t.length) := by
+  rw [isMinimalTC_cons2] at hm
+  obtain ⟨hm1, hm2⟩ := hm
+  rw [tcValue_cons, beValue_consI, List.length_cons, powI_succ]
+  have hP := powI_pos t.length
+  have hB := beValue_ltI t
+  have hB0 := beValue_nonnegI t
+  have ha := UInt8.toNat_lt a
+  have hb := UInt8.toNat_lt b
+  have hbn : (0 : Int) ≤ (b.toNat : Int) := Int.natCast_nonneg _
+  have hP0 := Int.le_of_lt hP
+  have h256 : (0 : Int) ≤ 256 * (256 : Int) ^ t.length := by omega
+  unfold sb
+  by_cases h128 : a.toNat ≥ 128
+  · simp only [h128, if_true]
+    right
+    by_cases h255 : a.toNat = 255
+    · have hb' : b.toNat < 128 := by omega
+      obtain ⟨_, h4⟩ := mul_bounds (b.toNat : Int) 0 127 _ hP0 hbn (by omega)
+      have e : ((a.toNat : Int) - 256) * (256 * (256 : Int) ^ t.length) = -(256 * (256 : Int) ^ t.length) := by
+        rw [h255]; grind
+      rw [e]; omega
+    · obtain ⟨_, h4⟩ := mul_bounds ((a.toNat : Int) - 256) (-128) (-2) _ h256 (by omega) (by omega)
+      obtain ⟨_, h6⟩ := mul_bounds (b.toNat : Int) 0 255 _ hP0 hbn (by omega)
+      omega
+  · simp only [h128, if_false]
+    left
+    by_cases h0 : a.toNat = 0
+    · have hb' : 128 ≤ b.toNat := by omega
+      obtain ⟨h3, _⟩ := mul_bounds (b.toNat : Int) 128 255 _ hP0 (by omega) (by omega)
+      rw [h0]; simp only [Int.natCast_zero, Int.zero_mul, Int.zero_add]; omega
+    · obtain ⟨h3, _⟩ := mul_bounds (a.toNat : Int) 1 127 _ h256 (by omega) (by omega)
+      obtain ⟨h5, _⟩ := mul_bounds (b.toNat : Int) 0 255 _ hP0 hbn (by omega)
+      omega
+
+theorem tcValue_of_lt (a : UInt8) (t : Bytes) (h : a.toNat < 128) :
+    tcValue (a :: t) = (beValue (a :: t) : Int) := by
+  unfold tcValue; simp [Nat.not_le.mpr h]
+
+theorem tcValue_of_ge (a : UInt8) (t : Bytes) (h : 128 ≤ a.toNat) :
+    tcValue (a :: t) = (beValue (a :: t) : Int) - (256 : Int) ^ (t.length + 1) := by
+  unfold tcValue; simp [h]
+
+/-- `iN::from_be_bytes` computes the two's complement value -/
+theorem signedOfBE_eq (s : Bytes) : signedOfBE s = tcValue s := by
+  cases s with
+  | nil => simp [signedOfBE, tcValue, beValue_nil]
+  | cons a t =>
+    unfold signedOfBE
+    have e : 8 * (a :: t).length - 1 = 8 * t.length + 7 := by simp; omega
+    have hP : (2 : Nat) ^ (8 * t.length + 7) = 128 * 256 ^ t.length := by
+      rw [Nat.pow_add, Nat.pow_mul, Nat.mul_comm]
+    have hc : (beValue (a :: t) ≥ 2 ^ (8 * (a :: t).length - 1) ∧ (a :: t).length > 0) ↔ 128 ≤ a.toNat := by
+      rw [e, hP, beValue_cons]
+      have hB := beValue_lt t
+      have hpos := pow256_pos t.length
+      constructor
+      · intro ⟨h, _⟩
+        apply Decidable.byContradiction; intro hn
+        have : a.toNat * 256 ^ t.length ≤ 127 * 256 ^ t.length := Nat.mul_le_mul_right _ (by omega)
+        omega
+      · intro h
+        have : 128 * 256 ^ t.length ≤ a.toNat * 256 ^ t.length := Nat.mul_le_mul_right _ h
+        exact ⟨by omega, by simp⟩
+    by_cases h : 128 ≤ a.toNat
+    · rw [if_pos (hc.mpr h), tcValue_of_ge a t h, List.length_cons, full]
+    · rw [if_neg (fun x => h (hc.mp x)), tcValue_of_lt a t (by omega)]
+
+/-- sign extension keeps the two's complement value -/
+theorem tcValue_signext (k : Nat) (a : UInt8) (t : Bytes) :
+    tcValue (List.replicate k (if (a &&& 0x80) == 0 then (0 : UInt8) else 0xFF) ++ a :: t) = tcValue (a :: t) := by
+  cases k with
+  | zero => simp
+  | succ k =>
+    rw [byte_and80_eq0]
+    by_cases h : a.toNat < 128
+    · simp only [h, decide_true, if_true]
+      rw [List.replicate_succ, List.cons_append, tcValue_of_lt 0 _ (by decide), tcValue_of_lt a t h,
+        ← List.cons_append, ← List.replicate_succ, beValue_replicate_zero]
+    · simp only [h, decide_false, Bool.false_eq_true, if_false]
+      rw [List.replicate_succ, List.cons_append, tcValue_of_ge 0xFF _ (by decide), tcValue_of_ge a t (by omega),
+        ← List.cons_append, ← List.replicate_succ]
+      have h1 := beValue_replicate_ff (k + 1) (a :: t)
+      have h2 := congrArg (fun n : Nat => (n : Int)) h1
+      simp only [Int.natCast_add, Int.natCast_pow] at h2
+      have e : (List.replicate k (255 : UInt8) ++ a :: t).length + 1 = k + 1 + (a :: t).length := by
+        simp; omega
+      rw [e]
+      have c : ((256 : Nat) : Int) = 256 := rfl
+      rw [c] at h2
+      simp only [List.length_cons] at h2 ⊢
+      omega
+
+theorem inRange_signed (w : Nat) (v : Int) :
+    inRange true (w + 1) v = true ↔ -(128 * (256 : Int) ^ w) ≤ v ∧ v < 128 * (256 : Int) ^ w := by
+  simp [inRange, half_succ]
+
+theorem inRange_unsigned (w : Nat) (v : Int) :
+    inRange false w v = true ↔ 0 ≤ v ∧ v < (256 : Int) ^ w := by
+  simp [inRange, full]
+
+/-- **Pure core, signed.**  On a minimal two's complement string `slice_to_builtin!(signed, …)` returns the
+    value exactly when it lies in the range of the `w`-octet type, and `none` (the caller's error)
+    otherwise; it never panics and never wraps. -/
+theorem sliceToSigned_eq (w : Nat) (hw : 1 ≤ w) (s : Bytes) (hm : isMinimalTC s = true) :
+    sliceToSigned w s = .ok (if inRange true w (tcValue s) then some (tcValue s) else none) := by
+  obtain ⟨w, rfl⟩ : ∃ w', w = w' + 1 := ⟨w - 1, by omega⟩
+  unfold sliceToSigned
+  by_cases hl : s.length > w + 1
+  · rw [if_pos hl]
+    -- at least two octets
+    match s, hm, hl with
+    | a :: b :: t, hm, hl =>
+      have hbig := tcValue_minimal_big a b t hm
+      have hmono : (256 : Int) ^ w ≤ (256 : Int) ^ t.length := powI_mono (by simp at hl; omega)
+      have : ¬ inRange true (w + 1) (tcValue (a :: b :: t)) = true := by
+        rw [inRange_signed]; omega
+      simp [this]
+  · rw [if_neg hl]
+    match s, hm, hl with
+    | a :: t, hm, hl =>
+      simp only
+      rw [signedOfBE_eq, tcValue_signext]
+      obtain ⟨h1, h2⟩ := tcValue_range_cons a t
+      have hmono : (256 : Int) ^ t.length ≤ (256 : Int) ^ w := powI_mono (by simp at hl; omega)
+      have : inRange true (w + 1) (tcValue (a :: t)) = true := by
+        rw [inRange_signed]; omega
+      simp [this]
 end Bcder.Props.C14
